@@ -514,7 +514,7 @@ def run(chk, drv):
     procs = min(16, os.cpu_count() or 1)
     tot = exhaustive(chk, drv, small_cfgs(chk.tier), 20000 if quick else 400000, procs)
     tot["wall_s"] = round(time.time() - t0, 1)
-    chk.extra["exhaustive"] = tot
+    chk.extra["exhaustive_exploration"] = tot
     if tot["truncated"]:
         chk.notes.append("%d exhaustive configurations hit the state cap" % tot["truncated"])
     shrink_failures(chk)
